@@ -286,6 +286,89 @@ func scenarios() []scenario {
 	return out
 }
 
+// two blocking selects that can only meet each other (with and without nil-channel
+// cases, which must be inert): both must finish, exactly one value is transferred and
+// the two sides agree on which one
+func selectPairScenarios() []scenario {
+	type side struct {
+		sendOn, recvOn int // channel indexes (0 = a, 1 = b, -1 = none)
+		nilSend, nilRecv bool
+	}
+	mk := func(name string, swap bool, A, B side) scenario {
+		return scenario{name: name, cap: 0, build: func(_ *Chan, o *outcome) map[string]func() {
+			x, y := NewChan(isz, 0), NewChan(isz, 0)
+			chans := []*Chan{x, y}
+			if (uintptr(unsafe.Pointer(x)) > uintptr(unsafe.Pointer(y))) != swap {
+				chans = []*Chan{y, x}
+			}
+			run := func(who string, sd side, val int) func() {
+				return func() {
+					v := val
+					var got int
+					var ops []ChanOp
+					var kinds []string
+					if sd.nilSend {
+						ops = append(ops, ChanOp{C: nil, Val: unsafe.Pointer(&v), Size: int32(isz), Send: true})
+						kinds = append(kinds, "nil")
+					}
+					if sd.sendOn >= 0 {
+						ops = append(ops, ChanOp{C: chans[sd.sendOn], Val: unsafe.Pointer(&v), Size: int32(isz), Send: true})
+						kinds = append(kinds, "send")
+					}
+					if sd.recvOn >= 0 {
+						ops = append(ops, ChanOp{C: chans[sd.recvOn], Val: unsafe.Pointer(&got), Size: int32(isz)})
+						kinds = append(kinds, "recv")
+					}
+					if sd.nilRecv {
+						ops = append(ops, ChanOp{C: nil, Val: unsafe.Pointer(&got), Size: int32(isz)})
+						kinds = append(kinds, "nil")
+					}
+					isel, ok := Select(ops...)
+					switch kinds[isel] {
+					case "send":
+						o.sent[who] = append(o.sent[who], val)
+					case "recv":
+						o.recv[who] = append(o.recv[who], recvRes{got, ok})
+					default:
+						o.recv[who] = append(o.recv[who], recvRes{-999, false}) // a nil-channel case was chosen
+					}
+				}
+			}
+			return map[string]func(){"A": run("A", A, 1), "B": run("B", B, 2)}
+		}, check: func(o *outcome, stuck []string) string {
+			if len(stuck) > 0 {
+				return fmt.Sprintf("selects left blocked although they can meet each other: %v", stuck)
+			}
+			nsent, nrecv := len(o.sent["A"])+len(o.sent["B"]), len(o.recv["A"])+len(o.recv["B"])
+			if nsent != 1 || nrecv != 1 {
+				return fmt.Sprintf("%d sends and %d receives committed, want exactly one of each (sent %v, received %v)", nsent, nrecv, o.sent, o.recv)
+			}
+			for who, vs := range o.sent {
+				other := "B"
+				if who == "B" {
+					other = "A"
+				}
+				if r := o.recv[other]; len(r) != 1 || !r[0].ok || r[0].v != vs[0] {
+					return fmt.Sprintf("%s sent %d but %s received %v", who, vs[0], other, r)
+				}
+			}
+			return ""
+		}}
+	}
+	var out []scenario
+	for _, swap := range []bool{false, true} {
+		tag := fmt.Sprintf(" order=%v", swap)
+		out = append(out,
+			mk("select{a<-,<-b}|select{b<-,<-a}"+tag, swap, side{0, 1, false, false}, side{1, 0, false, false}),
+			mk("select{a<-,<-b,<-nil}|select{b<-,<-a}"+tag, swap, side{0, 1, false, true}, side{1, 0, false, false}),
+			mk("select{nil<-,a<-,<-b}|select{b<-,<-a}"+tag, swap, side{0, 1, true, false}, side{1, 0, false, false}),
+			mk("select{nil<-,<-a}|select{a<-}"+tag, swap, side{-1, 0, true, false}, side{0, -1, false, false}),
+			mk("select{<-a,<-nil}|select{a<-}"+tag, swap, side{-1, 0, false, true}, side{0, -1, false, false}),
+		)
+	}
+	return out
+}
+
 func TestZZVerifChanSchedules(t *testing.T) {
 	if os.Getenv("VERIF_C10") == "" {
 		t.Skip("VERIF_C10 not set")
@@ -297,7 +380,7 @@ func TestZZVerifChanSchedules(t *testing.T) {
 	only := os.Getenv("VERIF_C10_ONLY")
 	seed, _ := strconv.ParseInt(os.Getenv("VERIF_SEED"), 10, 64)
 	total, bad, incomplete := 0, 0, 0
-	for _, sc := range scenarios() {
+	for _, sc := range append(scenarios(), selectPairScenarios()...) {
 		if only != "" && !strings.Contains(sc.name, only) {
 			continue
 		}
